@@ -43,7 +43,10 @@ type rendered struct {
 
 // renderAt renders an error at pos of content. moved: the error value was first rendered against another, longer file with other
 // line ends and then pointed at this one (SetFile / SetIndex) - the result is a function of the final file and position only.
-func renderAt(content []byte, pos int, moved bool) (r rendered) {
+func renderAt(content []byte, pos int, moved bool) (r rendered) { return renderAtM(content, pos, moved, false) }
+
+// again: the same error value was rendered at another position of the same file before (SetIndex only).
+func renderAtM(content []byte, pos int, moved, again bool) (r rendered) {
 	defer func() {
 		if p := recover(); p != nil {
 			r.Panic = fmt.Sprint(p)
@@ -61,6 +64,14 @@ func renderAt(content []byte, pos int, moved bool) (r rendered) {
 		_ = e.Line()
 		_ = e.SourceSubString()
 		e.SetFile(f)
+	}
+	if again && len(content) > 0 {
+		for _, other := range []int{(pos + len(content)/2 + 1) % len(content), len(content) - 1, 0} {
+			e.SetIndex(jerrIndex(other))
+			_ = e.Line()
+			_ = e.SourceSubString()
+			_ = e.String()
+		}
 	}
 	e.SetIndex(jerrIndex(pos))
 	r.Line = int(e.Line())
@@ -93,7 +104,7 @@ func init() {
 			c := cases[i]
 			atomic.AddInt64(&n, 1)
 			content := intsToBytes(c.Content)
-			r := renderAt(content, c.Pos, i%3 == 1)
+			r := renderAtM(content, c.Pos, i%3 == 1, i%3 == 2)
 			bad := func(what, want, got string) {
 				atomic.AddInt64(&mism, 1)
 				w.Write(c17Mismatch{c.Content, c.Pos, what, want, got})
